@@ -310,25 +310,93 @@ theorem render_inv (a : CtorArgs) (specs : List FieldSpec) (t t' : Tbl) (ls : Li
       simp only [printed, Option.some.injEq, decide_eq_false_iff_not] at hs
       exact absurd hpos hs
 
-/-- the states a table goes through: constructed, printed, re-formatted with any string,
-re-constructed from any string -/
-inductive Reach (a : CtorArgs) : Tbl → Prop where
-  | new (t : Tbl) : mkTable a = .ok t → Reach a t
-  | print (t t' : Tbl) (ls : List Line) : Reach a t → render t = .ok (t', ls) → Reach a t'
-  | set (t t' : Tbl) (s : List Char) : Reach a t → applySetter t s = .ok t' → Reach a t'
-  | ctor (t t' : Tbl) (s : List Char) : Reach a t →
+/-- a table built from a format object (`fmt_obj=`) satisfies the invariants, whatever records, limits
+and skipped columns it is given -/
+theorem fromFmt_inv (a : CtorArgs) (specs : List FieldSpec) (f : Fmt)
+    (hnd : hasDup (specs.map (·.name)) = false) (hf : f.fields = mkFields 0 specs)
+    (hc : ∀ c ∈ f.cols, findField f.fields c.field.name = some c.field ∧
+      verifyModifier c.field.ftype c.modifier = .ok ())
+    (lims : Option (Option Int × Option Int)) (skip : Option (List (List Char))) :
+    Inv a specs (mkTableFromFmt f a.records lims skip a.header a.footer) := by
+  have hcols : ∀ c ∈ (mkTableFromFmt f a.records lims skip a.header a.footer).fmt.cols,
+      (findField f.fields c.field.name = some c.field ∧ verifyModifier c.field.ftype c.modifier = .ok ()) ∧
+      c.width = Option.none := by
+    intro c hcm
+    simp only [mkTableFromFmt, cloneFmt] at hcm
+    have hmem : c ∈ f.cols.map (fun c => { c with width := Option.none }) := by
+      cases skip with
+      | none => exact hcm
+      | some names => exact (List.mem_filter.mp hcm).1
+    simp only [List.mem_map] at hmem
+    obtain ⟨c0, hc0, rfl⟩ := hmem
+    exact ⟨hc c0 hc0, rfl⟩
+  refine ⟨hnd, rfl, rfl, ?_, hf, ?_, ?_, ?_⟩
+  · simp only [mkTableFromFmt, footerOf]; cases a.footer <;> rfl
+  · intro c hcm; exact (hcols c hcm).1
+  · exact widthsFaithful_of_fresh _ (fun c hcm => (hcols c hcm).2)
+  · exact skipFaithful_of_none _ rfl
+
+theorem directCols_ok (fields : List Field) (cs : List ColSpec) (cols : List Col)
+    (h : directCols fields cs = .ok cols) :
+    ∀ c ∈ cols, findField fields c.field.name = some c.field ∧
+      verifyModifier c.field.ftype c.modifier = .ok () := by
+  induction cs generalizing cols with
+  | nil => simp [directCols] at h; subst h; simp
+  | cons p ps ih =>
+    unfold directCols at h
+    cases hf : findField fields p.fieldName with
+    | none => simp [hf] at h
+    | some f =>
+      simp only [hf, bind_ok] at h
+      obtain ⟨_, _, hself⟩ := findField_name fields _ f hf
+      obtain ⟨u, hu, rest, hr, h⟩ := h
+      cases h
+      cases u
+      intro x hx
+      rcases List.mem_cons.mp hx with rfl | hx
+      · exact ⟨hself, hu⟩
+      · exact ih rest hr x hx
+
+theorem mkTableDirect_inv (a : CtorArgs) (specs : List FieldSpec) (ha : a.fields = some specs)
+    (cs : List ColSpec) (lims : Option Int × Option Int) (t : Tbl) (h : mkTableDirect a cs lims = .ok t) :
+    Inv a specs t := by
+  simp only [mkTableDirect, bind_ok] at h
+  obtain ⟨t0, h0, cols, hcols, h⟩ := h
+  cases h
+  have hi0 := mkTable_inv { a with fmt := Option.none, limits := Option.none, skip := Option.none } specs ha t0 h0
+  exact fromFmt_inv a specs ⟨t0.fmt.fields, cols, lims.1, lims.2, Option.none⟩ hi0.nodup hi0.fields_eq
+    (directCols_ok _ _ _ hcols) Option.none Option.none
+
+/-- The states a table goes through: constructed from a format string (`new`) or from column objects
+(`direct`), printed, re-formatted with any string, re-constructed from any string, or built with
+`fmt_obj=` from the format of any other reachable table with the same fields (`fromObj`: siblings
+made from one format object, with their own records, header, footer, limits and skipped columns). -/
+inductive Reach : CtorArgs → Tbl → Prop where
+  | new (a : CtorArgs) (t : Tbl) : mkTable a = .ok t → Reach a t
+  | direct (a : CtorArgs) (cs : List ColSpec) (lims : Option Int × Option Int) (t : Tbl) :
+      mkTableDirect a cs lims = .ok t → Reach a t
+  | print (a : CtorArgs) (t t' : Tbl) (ls : List Line) : Reach a t → render t = .ok (t', ls) → Reach a t'
+  | set (a : CtorArgs) (t t' : Tbl) (s : List Char) : Reach a t → applySetter t s = .ok t' → Reach a t'
+  | ctor (a : CtorArgs) (t t' : Tbl) (s : List Char) : Reach a t →
       mkTable { a with fmt := some s, limits := Option.none, skip := Option.none } = .ok t' → Reach a t'
+  | fromObj (b a : CtorArgs) (u : Tbl) (lims : Option (Option Int × Option Int))
+      (skip : Option (List (List Char))) : Reach b u → a.fields = b.fields →
+      Reach a (mkTableFromFmt u.fmt a.records lims skip a.header a.footer)
 
 theorem reach_inv (a : CtorArgs) (specs : List FieldSpec) (ha : a.fields = some specs) (t : Tbl)
     (h : Reach a t) : Inv a specs t := by
   induction h with
-  | new t hm => exact mkTable_inv a specs ha t hm
-  | print t t' ls _ hr ih => exact render_inv a specs t t' ls ih hr
-  | set t t' s _ hs ih => exact applySetter_inv a specs t t' s ih hs
-  | ctor t t' s _ hm _ =>
+  | new a t hm => exact mkTable_inv a specs ha t hm
+  | direct a cs lims t hm => exact mkTableDirect_inv a specs ha cs lims t hm
+  | print a t t' ls _ hr ih => exact render_inv a specs t t' ls (ih ha) hr
+  | set a t t' s _ hs ih => exact applySetter_inv a specs t t' s (ih ha) hs
+  | ctor a t t' s _ hm _ =>
     exact inv_congr_args a { a with fmt := some s, limits := Option.none, skip := Option.none } specs t'
       (mkTable_inv { a with fmt := some s, limits := Option.none, skip := Option.none } specs ha t' hm)
       rfl rfl rfl
+  | fromObj b a u lims skip _ hab ih =>
+    have hu := ih (by rw [← hab]; exact ha)
+    exact fromFmt_inv a specs u.fmt hu.nodup hu.fields_eq hu.colsOk lims skip
 
 /-! ## reading the printed format back -/
 
@@ -338,22 +406,28 @@ theorem nameOk_of_all (s : List Char) (h : ∀ c ∈ s, c ∉ forbidden ∧ isSp
 theorem enumMods_nameOk : NameOk Gen.C12.enumModFull ∧ NameOk Gen.C12.enumModVal ∧ NameOk Gen.C12.enumModName :=
   ⟨nameOk_of_all _ (by decide), nameOk_of_all _ (by decide), nameOk_of_all _ (by decide)⟩
 
-theorem verified_modifier_nameOk (ft : FType) (m : List Char) (h : verifyModifier ft (some m) = .ok ()) :
-    NameOk m := by
+theorem verified_modifier_modOk (ft : FType) (m : List Char) (h : verifyModifier ft (some m) = .ok ())
+    (hcustom : ∀ cu, ft = .custom cu → ModOk m) : ModOk m := by
   cases ft with
   | dflt => simp [verifyModifier] at h
+  | custom cu => exact hcustom cu rfl
   | enum e =>
     simp only [verifyModifier, enumMod?] at h
     by_cases h1 : m = Gen.C12.enumModFull
-    · rw [h1]; exact enumMods_nameOk.1
+    · rw [h1]; exact enumMods_nameOk.1.modOk
     · by_cases h2 : m = Gen.C12.enumModVal
-      · rw [h2]; exact enumMods_nameOk.2.1
+      · rw [h2]; exact enumMods_nameOk.2.1.modOk
       · by_cases h3 : m = Gen.C12.enumModName
-        · rw [h3]; exact enumMods_nameOk.2.2
+        · rw [h3]; exact enumMods_nameOk.2.2.modOk
         · simp [h1, h2, h3] at h
 
+/-- the modifiers of the columns of user-written field types (free text) are expressible; the built-in
+types only accept expressible ones -/
+def CustomModsOk (cols : List Col) : Prop :=
+  ∀ c ∈ cols, ∀ cu m, c.field.ftype = .custom cu → c.modifier = some m → ModOk m
+
 theorem inv_colNameOk {a : CtorArgs} {specs : List FieldSpec} {t : Tbl} (hi : Inv a specs t)
-    (hn : ∀ sp ∈ specs, NameOk sp.name) : ∀ c ∈ t.fmt.cols, ColNameOk c := by
+    (hn : ∀ sp ∈ specs, NameOk sp.name) (hm : CustomModsOk t.fmt.cols) : ∀ c ∈ t.fmt.cols, ColNameOk c := by
   intro c hc
   obtain ⟨hf, hv⟩ := hi.colsOk c hc
   obtain ⟨_, hmem, _⟩ := findField_name _ _ _ hf
@@ -363,9 +437,9 @@ theorem inv_colNameOk {a : CtorArgs} {specs : List FieldSpec} {t : Tbl} (hi : In
     simp only [List.mem_map] at this
     obtain ⟨sp, hsp, hname⟩ := this
     rw [← hname]; exact hn sp hsp
-  · intro m hm
-    rw [hm] at hv
-    exact verified_modifier_nameOk _ m hv
+  · intro m hmod
+    rw [hmod] at hv
+    exact verified_modifier_modOk _ m hv (fun cu hcu => hm c hc cu m hcu hmod)
 
 theorem mkCol_pcolOf (c : Col) (hv : verifyModifier c.field.ftype c.modifier = .ok ()) :
     mkCol c.field (pcolOf c) (some c.minW) (some c.maxW) = .ok c.reset := by
@@ -493,7 +567,8 @@ theorem natToDec_inj (a b : Nat) (h : natToDec a = natToDec b) : a = b := by
   simpa [natToDec] using this
 
 /-- the field specifications that give the fields of a field-less table back -/
-def specsOf (fields : List Field) : List FieldSpec := fields.map fun f => ⟨f.name, f.ftype, TitleArg.none⟩
+def specsOf (fields : List Field) : List FieldSpec :=
+  fields.map fun f => ⟨f.name, f.ftype, TitleArg.none, Option.none⟩
 
 /-- a name without line break and edge blanks is its own (single) title line -/
 theorem genTitleLines_none (name : List Char) (h1 : '\n' ∉ name) (h2 : EdgeOk name) :
@@ -595,6 +670,7 @@ theorem mkTable_fieldless (a : CtorArgs) (ha : a.fields = Option.none) (t : Tbl)
           = [⟨Gen.C12.dummyField, FType.dflt, 0, [Val.str Gen.C12.dummyField]⟩] := by
         simp only [specsOf, List.map_cons, List.map_nil, mkFields]
         rw [genTitleLines_none _ dummy_ok.1 dummy_ok.2.2]
+        rfl
       refine ⟨?_, ?_⟩
       · unfold mkTable
         simp only [hp, hpc, bind, Except.bind, specsOf, List.map_cons, List.map_nil, hasDup,
@@ -631,6 +707,7 @@ theorem mkTable_fieldless (a : CtorArgs) (ha : a.fields = Option.none) (t : Tbl)
           = [⟨Gen.C12.dummyField, FType.dflt, 0, [Val.str Gen.C12.dummyField]⟩] := by
         simp only [specsOf, List.map_cons, List.map_nil, mkFields]
         rw [genTitleLines_none _ dummy_ok.1 dummy_ok.2.2]
+        rfl
       refine ⟨?_, ?_⟩
       · unfold mkTable
         simp only [hp, hpc, bind, Except.bind, specsOf, List.map_cons, List.map_nil, hasDup,
